@@ -19,6 +19,11 @@ Comm(a, b) == Mul(Mul(Mul(a, b), Inv(a)), Inv(b))
 Rot(w, i) == IF w = <<>> THEN <<>> ELSE
    LET n == Len(w) s == ((i % n) + n) % n IN Reduce([k \in 1..n |-> w[((k-1+s) % n) + 1]])
 \* all rotations of the word and of its inverse
+\* cyclic reduction of a reduced word: strip cancelling first/last letters (the conjugacy class keeps its rotations)
+RECURSIVE CycReduce(_)
+CycReduce(w) == IF Len(w) >= 2 /\ w[1] = -w[Len(w)] THEN CycReduce(SubSeq(w, 2, Len(w) - 1)) ELSE w
+\* a word up to conjugation and inversion: rotations and inverses of its cyclic reduction
+ConjClass(w) == LET c == CycReduce(w) IN IF c = <<>> THEN {<<>>} ELSE UNION {{Rot(c, i), Inv(Rot(c, i))} : i \in 0..(Len(c)-1)}
 RelPerms(w) == IF w = <<>> THEN {<<>>} ELSE UNION {{Rot(w, i), Inv(Rot(w, i))} : i \in 0..(Len(w)-1)}
 \* exponent sum of generator g
 RECURSIVE ExpSum(_,_)
